@@ -44,6 +44,26 @@ pub enum Ctor {
 pub enum SinkKind {
     Iovec,
     HcobsEncoder,
+    /// A sink supplied by the caller (the trait is public): it concatenates what it is given
+    /// and records how.
+    Custom,
+}
+
+/// A caller-supplied [`ZeroCopySink`].
+#[derive(Default)]
+struct RecordingSink<'a> {
+    bytes: Vec<u8>,
+    borrowed: Vec<&'a [u8]>,
+}
+
+impl<'a> ZeroCopySink<'a> for RecordingSink<'a> {
+    fn append_copy(&mut self, bytes: &[u8]) {
+        self.bytes.extend_from_slice(bytes);
+    }
+    fn append_borrow(&mut self, bytes: &'a [u8]) {
+        self.borrowed.push(bytes);
+        self.bytes.extend_from_slice(bytes);
+    }
 }
 
 #[derive(Clone, Debug, PartialEq, Eq, Hash, Serialize, Deserialize)]
@@ -282,6 +302,11 @@ fn check_case_inner<'a>(case: &'a Case, arena: &Arena<'a>) -> CaseResult {
             }
             sink.flatten().map_err(|_| Fail::new("sink:pending", "iovec sink has a placeholder pending"))?
         }
+        SinkKind::Custom => {
+            let mut sink = RecordingSink::default();
+            wrapper.to_rough_tlv(&mut sink);
+            sink.bytes
+        }
         SinkKind::HcobsEncoder => {
             let mut enc = hcobs::Encoder::new();
             wrapper.to_rough_tlv(&mut enc);
@@ -490,7 +515,7 @@ fn case_strategy() -> impl Strategy<Value = Case> {
         ctor(),
         prop_oneof![8 => proptest::collection::vec((tag(), val()), 0..8), 2 => proptest::collection::vec((tag(), val()), 0..41), 1 => proptest::collection::vec((tag(), leaf()), 41..300)],
         any::<bool>(),
-        prop_oneof![Just(SinkKind::Iovec), Just(SinkKind::HcobsEncoder)],
+        prop_oneof![3 => Just(SinkKind::Iovec), 2 => Just(SinkKind::HcobsEncoder), 1 => Just(SinkKind::Custom)],
     )
         .prop_map(|(ctor, mut pairs, sort_first, sink)| {
             if ctor == Ctor::FromSorted && sort_first {
